@@ -104,7 +104,10 @@ impl<'a, T, L: MutLayout + Send + Sync> IntoParallelIterator for InnerIterMut<'a
 
 impl<'a, T, L: MutLayout + RemoveDim> SplitIterator for AxisIter<'a, T, L> {
     fn split_at(self, index: usize) -> (Self, Self) {
-        let (left_view, right_view) = self.view.split_at(self.axis, index);
+        // Split only the part of the view that has not been yielded yet.
+        let (_, rest) = self.view.split_at(self.axis, self.index);
+        let (remaining, _) = rest.split_at(self.axis, self.end - self.index);
+        let (left_view, right_view) = remaining.split_at(self.axis, index);
         let left = AxisIter::new(&left_view, self.axis);
         let right = AxisIter::new(&right_view, self.axis);
         (left, right)
@@ -120,7 +123,10 @@ where
 
 impl<'a, T, L: MutLayout + RemoveDim> SplitIterator for AxisIterMut<'a, T, L> {
     fn split_at(self, index: usize) -> (Self, Self) {
-        let (left_view, right_view) = self.view.split_at_mut(self.axis, index);
+        // Split only the part of the view that has not been yielded yet.
+        let (_, rest) = self.view.split_at_mut(self.axis, self.index);
+        let (remaining, _) = rest.split_at_mut(self.axis, self.end - self.index);
+        let (left_view, right_view) = remaining.split_at_mut(self.axis, index);
         let left = AxisIterMut::new(left_view, self.axis);
         let right = AxisIterMut::new(right_view, self.axis);
         (left, right)
